@@ -436,10 +436,20 @@ def run(chk: Check) -> int:
                       no_input=True)
         found += 1
     confs = S.all_confs()
-    # secrets that look like numbers / are given as str keywords: judged like every other configuration where the
-    # configuration can sign at all (probed on the real code); the others are listed, not judged
+    # secrets that look like numbers / are given as str keywords: judged like every other configuration.  A configuration
+    # that cannot store and read back at all (defect D42, repaired in /repo as c2756b4: the settings url turned such a secret
+    # into an int / float, every write raised TypeError, `secret=0` built an unsigned cache) violates the property outright.
     secret_probe = {f"{c.via}:secret={c.secret!r}": c.probe() for c in S.spelled_secret_confs()}
     confs += [c for c in S.spelled_secret_confs() if c.probe() == "signed"]
+    for c in S.spelled_secret_confs():
+        if c.probe() != "signed":
+            chk.violation(
+                f"a cache configured with secret {c.secret!r} ({c.via}), digest {c.digest}, pickler {c.pickle_type} cannot store and read back "
+                f"a value: set('probe', 'p') -> {c.probe()}",
+                {"config": {"secret": c.secret, "via": c.via, "digest": c.digest, "pickle_type": c.pickle_type}, "probe": c.probe(),
+                 "how": "Cache().setup(<settings url / keywords of the config>); await cache.set('probe', 'p'); await cache.get('probe')"},
+                signature="D42:url-numeric-secret")
+            found += 1
     n = chk.budget(5000, 80000)
     cases = [("corpus:" + name, conf, pairs) for name, conf, pairs in corpus_cases()]
     ncorpus = len(cases)
@@ -573,10 +583,7 @@ def run(chk: Check) -> int:
         "secret_spellings_probed": secret_probe,
         "trusted_base": TRUSTED,
         "partial": "P1-P3 for pickle/json are sampled, not proved; dill/sqlalchemy picklers are not installed; redis/diskcache backends "
-                   "are not exercised (C09 is anchored on the in-memory backend); a numeric-looking secret in the settings url is turned "
-                   "into an int / float by the url parser: every write then raises TypeError ('secret=0': an unsigned cache) - such "
-                   "configurations are probed and, where they cannot sign, listed in secret_spellings_probed and NOT judged (reported "
-                   "as defect 'url-numeric-secret' (id to be assigned by the coordinator) with proposed_fixes/C09_url_secret_stays_text.diff); two classes that share a __name__ share one "
+                   "are not exercised (C09 is anchored on the in-memory backend); numeric-looking secrets in the settings url are probed and judged (defect D42, repaired as c2756b4); two classes that share a __name__ share one "
                    "registry slot (the later register_type serves both) and an instance of a subclass that keeps its registered "
                    "parent's __name__ is written through the parent's pair and read back as the parent: mirrored by the model "
                    "(same_name_classes_share_slot), no round-trip claim",
